@@ -71,6 +71,14 @@ def catalog_name(src):
 
 def content_for(rng, size):
     r = rng.random()
+    if r < 0.12 and size >= 4:
+        # text-like contents, whatever the kind of the file: a byte-order mark in front, an end-of-file mark (1A) or a line end
+        # behind, CR LF / CR / LF lines — all of it is content, reproduced byte for byte
+        head = rng.choice([b"\xef\xbb\xbf", b"\xff\xfe", b"", b"\r", b"\n"])
+        tail = rng.choice([b"\x1a", b"\r\n", b"\n", b"\r", b"\x00", b"", b"\x1a\x1a"])
+        eol = rng.choice([b"\r\n", b"\r", b"\n"])
+        body = (b"10 PRINT \"HELLO\"" + eol + b"20 GOTO 10" + eol) * (size // 20 + 1)
+        return (head + body)[: size - len(tail)] + tail if size >= len(head) + len(tail) else (head + tail)[:size].ljust(size, b"A")
     if r < 0.15:
         return bytes(size)
     if r < 0.25:
@@ -184,3 +192,13 @@ def strict_decode(tape):
     if cur is not None:
         return None, "file without end block"
     return files, None
+
+
+def tape_facts_ok(cols, first, size, nblocks):
+    """columns 4.. of a verbose tape line: `#<position>`, `<size> octet(s)`, `<n> block(s).` — the numbers are what C08/C12 are about;
+    a unit that agrees in number with its count ("1 octet", "1 block.") is as good as the invariable spelling of the pinned tree"""
+    if len(cols) != 3 or cols[0] != f"#{first}":
+        return False
+    ok_size = cols[1] == f"{size} octets" or (size == 1 and cols[1] == "1 octet")
+    ok_blocks = cols[2] == f"{nblocks} blocks." or (nblocks == 1 and cols[2] == "1 block.")
+    return ok_size and ok_blocks
